@@ -1,4 +1,5 @@
 import Mdsort.Proofs.World
+import Mdsort.Proofs.WorldStdinExample
 
 /-!
 # C02 - a crash at any instant never leaves a message without an intact copy
@@ -27,5 +28,48 @@ theorem C02_power_failure (env : PEnv) (ml : MatchList) (st : ExecSt) (w : World
     (hs : Proofs.Start w st orig) (hd : Proofs.NoDiscard ml) :
     ∀ w' ∈ (runPlan plan (matchesExec env ml st) w 0 []).2.2, Proofs.IntactDurable w' (Proofs.stages st.ms orig) :=
   Proofs.exec_always_durable env ml st w orig plan hs hd
+
+/-- MDA contract (stdin mode, `mdsort -`): for EVERY fault plan - any number of failed or short calls,
+including failures inside the cleanup of the spool - exit status 0 implies `Proofs.Delivered`:
+with `name0` the name the spool file got and `ml` the interpolated match list the rule set yields for
+the message, either nothing matched (the message is then stored NOWHERE and the status is still 0: this
+is what mdsort.c does, `EXPR_NOMATCH` just goes to `loop:`), or - if the list contains no discard,
+contains a move/flag/flags action and no destination is the spool itself - some entry of a directory
+OTHER than the spool is, in the final world, bound to a file whose DURABLE content is the message as
+received or as rewritten by label / add-header.  (A rule set without a move - label / add-header /
+exec / reject only - rewrites or pipes the spool copy, which the cleanup then removes: status 0 or 1,
+nothing stored; so does a discard, and `-d`.  These are the cases the hypotheses exclude.)  Hypotheses: `-` was given, not `-n`, exactly one `stdin` block (any number
+of `maildir` blocks), descriptor 0 holds `input`, `mkdtemp` returns a fresh directory. -/
+theorem C02_stdin_exit0 (env : PEnv) (orc : EvalOracles) (conf : List ConfBlock) (files : Files) (input : Bytes) (expr : Expr)
+    (w : World) (plan : Plan) (hm : env.stdinMode = true) (hs : env.syntaxOnly = false)
+    (hc : Proofs.World.stdinExprs conf = [expr]) (hin : Proofs.World.StdinIs w input)
+    (hfresh : Proofs.World.SpoolFresh env w) :
+    let r := runPlan plan (mainP env orc true conf files input) w 0 []
+    r.1.1 = 0 → Proofs.Delivered env orc expr input r.2.1 :=
+  Proofs.stdin_exit0 env orc conf files input expr w plan hm hs hc hin hfresh
+
+/-! Non-vacuity: the hypotheses hold for a 10-byte message, TMPDIR `/tmp` and the configuration
+`stdin { match all move "/m/inbox" }` (Proofs/WorldStdinExample); for the name the spool file gets
+without faults the rule set yields one move that is no discard and does not target the spool, so
+the last case of `Delivered` promises a durable copy (`#eval` of the model on this run gives exit
+status 0 with the message in `/m/inbox/new` and no spool left); with `match old …` nothing matches
+and `Delivered` promises nothing - the observation recorded above. -/
+example :
+    let r := runPlan Plan.none (mainP Proofs.StdinExample.env0 Proofs.StdinExample.orc0 true Proofs.StdinExample.conf0 []
+      Proofs.StdinExample.input0) Proofs.StdinExample.w0 0 []
+    r.1.1 = 0 → Proofs.Delivered Proofs.StdinExample.env0 Proofs.StdinExample.orc0 Proofs.StdinExample.expr0
+      Proofs.StdinExample.input0 r.2.1 :=
+  C02_stdin_exit0 _ _ _ _ _ _ _ _ rfl rfl Proofs.StdinExample.ex_stdinExprs Proofs.StdinExample.ex_stdinIs
+    Proofs.StdinExample.ex_fresh
+
+example : Proofs.StdinExample.deliversB (Proofs.World.spoolPath Proofs.StdinExample.env0)
+    (Proofs.World.stdinVerdict Proofs.StdinExample.env0 Proofs.StdinExample.orc0 Proofs.StdinExample.expr0
+      Proofs.StdinExample.input0 Proofs.StdinExample.path0 MFlags.empty) = true :=
+  Proofs.StdinExample.ex_delivers
+
+example : Proofs.StdinExample.unmatchedB
+    (Proofs.World.stdinVerdict Proofs.StdinExample.env0 Proofs.StdinExample.orc0 Proofs.StdinExample.expr1
+      Proofs.StdinExample.input0 Proofs.StdinExample.path0 MFlags.empty) = true :=
+  Proofs.StdinExample.ex_unmatched
 
 end Mdsort.Props
